@@ -60,6 +60,15 @@ func garbleJSON(b []byte) []byte {
 }
 
 func newThriftFix(r *rand.Rand) *fix12 {
+	// a descriptor whose conforming values never reach 6 bytes (or never convert) is no use as a fixture: draw another one
+	for {
+		if fx := tryThriftFix(r); fx != nil {
+			return fx
+		}
+	}
+}
+
+func tryThriftFix(r *rand.Rand) *fix12 {
 	var d DescJ
 	for {
 		d = randDescGraph(r, true)
@@ -88,7 +97,7 @@ func newThriftFix(r *rand.Rand) *fix12 {
 	ct := t2j.NewBinaryConv(conv.Options{})
 	cj := j2t.NewBinaryConv(conv.Options{})
 	var bins, jsons [][]byte
-	for len(bins) < 4 {
+	for try := 0; try < 200 && len(bins) < 4; try++ {
 		v := convConforming(r, d.From, stripDefaults(d), 0, true, true)
 		b := v.Enc(nil)
 		js, err := ct.Do(context.Background(), root, b)
@@ -96,6 +105,9 @@ func newThriftFix(r *rand.Rand) *fix12 {
 			continue
 		}
 		bins, jsons = append(bins, b), append(jsons, append([]byte(nil), js...))
+	}
+	if len(bins) < 4 {
+		return nil
 	}
 	binIn := [][]byte{bins[0], bins[1], truncMid(bins[2]), bins[3]}
 	jsIn := [][]byte{jsons[0], jsons[1], garbleJSON(jsons[2]), jsons[3]}
